@@ -23,7 +23,7 @@ XA = "user.oomd_ruleset_on"
 
 
 def cases(seed, tier):
-    n = 400 if tier == "quick" else 6000
+    n = 1000 if tier == "quick" else 6000
     rng = random.Random(seed * 1000003 + 11)
     for i in range(n):
         pat = rng.choice(["wl/*", "wl/a*", "wl/a?", "wl/svc*", "wl/*/x", "wl/a", "*/a1", "wl/[ab]*"])
